@@ -175,6 +175,33 @@ def run(prog, chk):
         rel = pushers[0]
         callers = {gf.short for gf, n in prog.callers(rel)}
         chk.ob('R03.4', rel, rel.ln, callers <= {'destroyObject'} and bool(callers), 'release is called only when an object is destroyed: %s' % sorted(callers), key='release-callers')
+        # each qubit slot of a destroyed object is released exactly once: the release sites sit in ONE sweep over the object's
+        # field vector (optionally an inner sweep over the elements of a qubit[] slot), not in a walk over classes or class
+        # metadata (a derived class's field table repeats the inherited fields, so a per-level walk releases them twice)
+        from ..kernels import enclosing_stmts, full_range_for
+        for gf, call in prog.callers(rel):
+            loops = [s_ for s_ in enclosing_stmts(gf.body, call) if s_['k'] in ('for', 'forrange', 'while', 'do')]
+            detail = []
+            ok = bool(loops)
+            if loops:
+                outer = loops[0]
+                if outer['k'] == 'for':
+                    fr = full_range_for(outer)
+                    okb = bool(fr) and SX.show(fr[1]).replace(' ', '').endswith('->fields.size()')
+                elif outer['k'] == 'forrange':
+                    okb = SX.show(outer['range']).replace(' ', '').endswith('->fields')
+                else:
+                    okb = False
+                if not okb:
+                    ok = False
+                    detail.append('outer loop is not a full sweep over the object\'s fields: %s' % (SX.show(outer.get('range') or outer.get('c'))[:50]))
+                for inner in loops[1:]:
+                    if not (inner['k'] == 'forrange' and 'qubitArray' in SX.show(inner['range'])):
+                        ok = False
+                        detail.append('nested loop over %s' % SX.show(inner.get('range') or inner.get('c'))[:40])
+            chk.ob('R03.4', gf, call.get('ln', gf.ln), ok,
+                   'every qubit slot of a destroyed object is released exactly once (one sweep over obj->fields, inner sweep only over a qubit[] slot\'s elements)%s' %
+                   ('' if ok else ': ' + '; '.join(detail)), key='release-once:%s' % gf.short)
     if allocs:
         a = allocs[0]
         ga = prog.cfg(a)
@@ -272,8 +299,12 @@ def _divisor_ok(prog, f, n, d, pm, minfo):
                 if SX.is_node(init) and init['k'] == 'call' and SX.short(init.get('callee', '')) == 'sqrt':
                     x = SX.strip(SX.real_args(init)[0])
                     if x['k'] == 'cond' and SX.strip(x['c']).get('id') == minfo.get('res_id'):
-                        tt, ff = SX.show(x['t']), SX.show(x['f']).replace(' ', '')
-                        if minfo['res_ok'] and minfo['dist_ok'] and minfo['draw_ok'] and tt == 'p1' and ff in ('(1-p1)', '(1.0-p1)'):
+                        tt, ff = SX.strip(x['t']), SX.strip(x['f'])
+                        pid = minfo.get('p1_id')
+                        t_ok = SX.is_node(tt) and tt.get('k') == 'ref' and tt.get('id') == pid
+                        f_ok = SX.is_node(ff) and ff.get('k') == 'bin' and ff.get('op') == '-' and _const_val(ff['l']) == 1 and \
+                            SX.is_node(SX.strip(ff['r'])) and SX.strip(ff['r']).get('id') == pid
+                        if minfo['res_ok'] and minfo['dist_ok'] and minfo['draw_ok'] and pid is not None and t_ok and f_ok:
                             return True, 'premises hold: r∈[0,1), outcome ≡ r<p1 ⇒ p1>r≥0 when 1, p1≤r<1 when 0; divisor √(outcome ? p1 : 1−p1) > 0'
     return False, 'no non-zero evidence found (constant, dominating positivity test, or the measure premise set)'
 
